@@ -45,7 +45,22 @@ pub fn short_file(f: &str) -> String {
 pub fn normalise(m: &str) -> String {
     let mut out = String::new();
     let mut in_num = false;
+    // quoted payload (values of the failing input) is not part of a signature
+    let mut quote: Option<char> = None;
     for c in m.chars() {
+        if let Some(q) = quote {
+            if c == q {
+                quote = None;
+                out.push(c);
+            }
+            continue;
+        }
+        if c == '`' || c == '"' {
+            quote = Some(c);
+            out.push(c);
+            out.push('_');
+            continue;
+        }
         if c.is_ascii_digit() {
             if !in_num {
                 out.push('N');
